@@ -405,9 +405,9 @@ func run(c *core.Ctx) error {
 		}
 		if c.Thorough() {
 			jobs = append(jobs,
-				modelJob{"Proto", "Proto_mc_slow.cfg", 4, 40 * time.Minute},
-				modelJob{"Proto", "Proto_mc_thorough.cfg", 6, 60 * time.Minute},
-				modelJob{"Proto", "Proto_live_thorough.cfg", 3, 60 * time.Minute},
+				modelJob{"Proto", "Proto_mc_slow.cfg", 4, 120 * time.Minute},
+				modelJob{"Proto", "Proto_mc_thorough.cfg", 8, 180 * time.Minute},
+				modelJob{"Proto", "Proto_live_thorough.cfg", 3, 180 * time.Minute},
 			)
 		}
 		runModels(c, jobs, 3)
